@@ -723,7 +723,7 @@ def violations (d : Doc) : List Viol :=
       when (a.str "name" != "") "headerName" ++ when (a.str "in" != "") "headerIn" ++
       when (!(a.str "style" = "" || a.str "style" = "simple")) "badStyle" ++
       when (schemaXorContentBad a) "schemaXorContent" ++
-      when (a.num "content" > 1) "contentMany" ++ extraViols a
+      when (a.num "content" > 1) "contentMany" ++ exampleViols d ++ extraViols a
   | .mediaType =>
       when (a.flag "hasSchema" && a.flag "hasExample" && a.flag "hasExamples") "exampleAndExamples" ++
       exampleViols d ++ extraViols a
@@ -764,7 +764,7 @@ def specEdges : List (Kind × String) := [
   (.requestBodyRef, "value"), (.requestBody, "content"),
   (.responses, "responses"), (.responseRef, "value"), (.response, "content"), (.response, "headers"),
   (.headerRef, "value"), (.header, "schema"), (.header, "content"),
-  (.content, "mediaTypes"), (.mediaType, "schema"), (.mediaType, "encoding"),
+  (.content, "mediaTypes"), (.mediaType, "schema"), (.mediaType, "encoding"), (.encoding, "headers"),
   (.schemaRef, "value"), (.innerSchemaRef, "value"),
   (.schema, "oneOf"), (.schema, "anyOf"), (.schema, "allOf"), (.schema, "not"), (.schema, "items"),
   (.schema, "properties"), (.schema, "additionalProperties"), (.schema, "xml"), (.schema, "discriminator"),
@@ -802,6 +802,11 @@ def excl7Node (d : Doc) : Bool :=
 `validateExtensions` call) -/
 def exclHeaderNode (o : Opts) (d : Doc) : Bool := d.kind = .header && !(extKeysOK o d.attrs.exts)
 
+/-- the example / examples of a header object violate its schema (`Header.Validate` never looks at them,
+unlike `Parameter.Validate` and `MediaType.Validate`) -/
+def exclHeaderExampleNode (o : Opts) (d : Doc) : Bool :=
+  d.kind = .header && d.attrs.flag "hasSchema" && !o.exDisabled && !(exampleOK d && examplesGivenOK d)
+
 /-- sibling keys next to a `$ref` *inside* a schema (`oneOf`, `properties`, `items`, …): `Schema.validate`
 follows `ref.Value` directly and never runs the reference wrapper's own check -/
 def exclInnerNode (o : Opts) (d : Doc) : Bool := d.kind = .innerSchemaRef && !refSibsOK o d.attrs
@@ -826,7 +831,7 @@ def exclBelow (unc : List (Kind × String)) (o : Opts) (d : Doc) : Bool :=
 
 /-- local deviations: at such a node the code's local checks are weaker than the rules -/
 def exclLocal (o : Opts) (d : Doc) : Bool :=
-  excl7Node d || exclHeaderNode o d || exclInnerNode o d || exclExternalNode o d
+  excl7Node d || exclHeaderNode o d || exclInnerNode o d || exclExternalNode o d || exclHeaderExampleNode o d
 
 def exclNode (unc : List (Kind × String)) (o : Opts) (d : Doc) : Bool := exclLocal o d || exclBelow unc o d
 
